@@ -371,6 +371,26 @@ PROPS = {
                       'exact planar normal, curvature range, equivariance)',
         'level_note': 'catalogue clouds only',
     },
+    'C04': {
+        'sources': ['src/transform/estimation/FindRigidTransformationBySVD.cpp', 'src/pointset/algorithms/PreconditionedPointSet.cpp',
+                    'src/pointset/algorithms/PointSetPreconditioner.cpp', 'src/pointset/algorithms/Correspondence.cpp'],
+        'harness': 'c04_svd.cpp',
+        'flavour': 'plain',
+        'level': 'exploration',
+        'engine': 'lattice',
+        'rule': 'full lattice point type (8) x set catalogue (3 points .. 500 points, exactly coplanar, nearly coplanar, '
+                'clustered) x rotation (incl. angles 1e-6, pi-1e-6, pi about 6 axes) x translation x perturbation x '
+                'correspondence mode x overload x preconditioning scale; each result against Horn quaternion / closed-form '
+                'reference in long double. non-trivial = coplanar set, perturbed data, non-identity correspondences or a '
+                'non-default overload.',
+        'assumptions': ['rotation accuracy bound 16 eps n Ms Mt/(s_{d-1}+s_d) from the perturbation theory of the orthogonal Procrustes problem; cases where it exceeds 1e-9 (float 1e-4) are not resolvable in that scalar type and are counted in trivial_skipped',
+                        'preconditioning means the same isotropic scale on both sets without translation (the only form under which the library formula is an identity)'],
+        'tiers': {'quick': {'deadline': 400, 'case_timeout': 200}, 'thorough': {'deadline': 3000, 'case_timeout': 900}},
+        'technique': 'bounded-exhaustive input/configuration lattice on the real estimator, independent reference solution (Horn) in long double',
+        'level_text': 'complete enumeration of the stated catalogue through all four overloads and all eight point types; '
+                      'properness of the rotation and optimality decided for every case',
+        'level_note': 'catalogue values only',
+    },
 }
 
 ENGINES = [
